@@ -206,8 +206,9 @@ func Open(ctx context.Context, S3 S3Interface, cfg Config, opts OpenOptions, whe
 	// before it is loaded here
 	persists := []mast.Persist{rootPersist, mergedPersist}
 	if opts.OnlyVersions != nil {
+		// the same order: a named version that is current may be retired
+		// between the two lookups just as well
 		versionsToLoad = opts.OnlyVersions
-		persists = []mast.Persist{mergedPersist, rootPersist}
 		skipUnreadable = false
 	} else {
 		versionsToLoad, err = listRoots(ctx, S3, rootPersist)
@@ -612,7 +613,9 @@ func (s DB) loadRootGraph(ctx context.Context) (rootGraph, error) {
 	for _, rootName := range s.crdt.MergeSources {
 		todo[rootName] = struct{}{}
 	}
-	persists := []mast.Persist{s.merged, s.root}
+	// current first: a commit retires a version by storing it under merged/
+	// and only then deleting it from current/
+	persists := []mast.Persist{s.root, s.merged}
 	for {
 		rootName, ok := getFirst(todo)
 		if !ok {
